@@ -44,6 +44,7 @@ func init() {
 	registerRule("R52", ruleR52)
 	registerRule("R53", ruleR53)
 	registerRule("R54", ruleR54)
+	registerRule("R55", ruleR55)
 	registerRule("R39", ruleR39R40)
 	registerRule("R40", func(c *Ctx) { c.run("R39") })
 	registerRule("R37", func(c *Ctx) { c.run("R21") })
@@ -76,7 +77,7 @@ func init() {
 		NotDecided: "That linking a leaf corresponds to storing a new key (that is C01's value-level part) – the rule decides the pairing of structural events with the counter, not map semantics."})
 	registerProp(&propSpec{ID: "C19", Level: "translation_validation",
 		Rules:      []string{"R34"},
-		Explain:    "Translation validation of the generated file: the checker extracts the instantiation table from the AST of cmd/go-art/main.go (constants only), executes cmd/go-art/tree.tmpl with it, formats the result with go/format and compares it byte for byte with trees.go, one comparison per instantiation plus the header; it also checks the go:generate directives and that trees.go is gofmt-stable. The generator's output path: Execute writes to the opened file or to a bufio.Writer on it that is flushed after Execute and before the file is closed (explicit statements in order, deferred calls after them in reverse order), and the error of Execute ends the program.",
+		Explain:    "Translation validation of the generated file: the checker evaluates the generator cmd/go-art by constant folding (geneval.go: the generator has no input but its source, the embedded template and its constants; a Go-subset evaluator over abstract files, buffered writers, byte buffers, template sets and format.Source follows the error-free path, executes the templates with text/template on the data the evaluator computed, and stops undecided at any construct outside the subset – command line, environment, time), applies go/format if a go:generate gofmt directive names the output file, and compares the result byte for byte with trees.go, one comparison per instantiation plus the header; trees.go must be gofmt-stable. From the same evaluation: every byte the templates produce is in the output file when main returns (writers flushed before their file is closed, deferred calls in their real order), the error of every Execute ends the program (directly, in a helper, or in a caller it is returned to), and the output does not depend on map iteration order. None of the repository's code is run.",
 		NotDecided: "Nothing value-level remains: the property is a textual equality. Trusted: text/template and go/format of the Go release the checker is built with (assumed to agree with the release used to regenerate).",
 		Technique:  "static translation validation: re-render the code-generation template from the generator's AST and diff against the checked-in file", DesignRef: "§4 C19 R34"})
 	registerProp(&propSpec{ID: "C02", Level: "other", DesignRef: "§4 C02",
@@ -191,6 +192,7 @@ func init() {
 	impliedProps["R51"] = append(impliedProps["R51"], "C06", "C01", "C11", "C15")
 	impliedProps["R52"] = append(impliedProps["R52"], "C04", "C08")
 	impliedProps["R54"] = append(impliedProps["R54"], "C03", "C09")
+	impliedProps["R55"] = append(impliedProps["R55"], "C16", "C12", "C11", "C01", "C18", "C08")
 	// a stored key that aliases the caller's buffer changes under the tree: pairs vanish from
 	// lookups and iteration
 	impliedProps["R26"] = append(impliedProps["R26"], "C01", "C02")
